@@ -58,7 +58,12 @@ StepClause ==
     ELSE IF pc = "back" /\ z[j] # C.z[j + 1] THEN "Back:z"
     ELSE "ok"
 
-Step == /\ v = "run" /\ pc \notin {"float", "ret"}
+\* a source that returned without the factor arrays: only its result can be judged
+NoFactors == /\ v = "run" /\ pc = "row0" /\ Len(C.d) = 0
+             /\ IF C.z = W2!Solve(C.y, C.w, C.lam) THEN Finish("ACCEPT", "", "result-only")
+                ELSE Finish("REJECT", "IsPLS", "result-only")
+
+Step == /\ v = "run" /\ pc \notin {"float", "ret"} /\ ~(pc = "row0" /\ Len(C.d) = 0)
         /\ LET cl == StepClause IN
              IF cl = "ok" THEN W2!Next /\ UNCHANGED <<k, v>>
              ELSE Finish("REJECT", cl, ToString(Written))
@@ -68,7 +73,7 @@ Ret == /\ v = "run" /\ pc = "ret"
           ELSE IF ~W2!SolvesPLS THEN Finish("REJECT", "IsPLS", "")
           ELSE Finish("ACCEPT", "", ToString(n))
 
-TraceNext == Float \/ Step \/ Ret
+TraceNext == Float \/ NoFactors \/ Step \/ Ret
 TraceSpec == Init /\ [][TraceNext]_tvars
 IndexOK == pc # "float" => W2!IndexOK
 =============================================================================
